@@ -45,12 +45,20 @@ class FxPool(Pool):
     supply = demand = 0
     utilisation = allocation = 1.0
 
-    def __init__(self, name="pool", fail=False, quiet=False, **extra):
+    def __init__(self, name="pool", fail=False, quiet=False, size=None, **extra):
         self.fx_name = name
+        self.fx_size = size
         if fail:
             raise ValueError("fixture %s refuses to be constructed" % name)
         if not quiet:
             _constructed(self, name)
+
+
+class FxPoolSized(FxPool):
+    """a pool that is a sized container of resources; with size 0 it is falsy"""
+
+    def __len__(self):
+        return self.fx_size or 0
 
 
 class FxDeco(PoolDecorator):
@@ -277,7 +285,7 @@ if _spec:
     sys.settrace(_tracer)
 '''
 MOD = "verifdaemon_fx"
-TAGS = ["FxPool", "FxDeco", "FxCtrl", "FxSvcAsyncio", "FxSvcTrio", "FxSvcThread", "FxSvcCtrl", "FxSvcParked", "FxGc", "FxSvcQuiet", "FxSvcUnhashable", "FxSvcEqual"]
+TAGS = ["FxPool", "FxPoolSized", "FxDeco", "FxCtrl", "FxSvcAsyncio", "FxSvcTrio", "FxSvcThread", "FxSvcCtrl", "FxSvcParked", "FxGc", "FxSvcQuiet", "FxSvcUnhashable", "FxSvcEqual"]
 _ready = False
 
 
